@@ -261,40 +261,67 @@ class DnsHooks(QHooks):
             self.rets.append(val)
 
 
+def _lvalue_path(eng, E, arg):
+    """the storage an argument expression reads (first lvalue-to-rvalue conversion in it)"""
+    for y in arg.walk():
+        if y.k == 'cast' and y.op == 'LValueToRValue':
+            p = eng.canon(E, y.args[0])
+            if p:
+                return p
+    return None
+
+
 def dns_walker_sites(db, rep):
-    """findip / findmx / findname: the data of a resource record is read only if it lies inside the response"""
+    """the record walkers of dns.c (findip / findmx / findname): the data of a resource record is read only if it lies inside the response.
+    Walkers are found by role: the functions of dns.c with one integer parameter (the wanted type) that hand the response to dn_expand();
+    which static holds the start, the end and the read position of the response is taken from that call's first three arguments."""
+    from qv.esp import Env
+    from qv.lib import deep_calls
     prog = db.program('qmail-remote')
     out = {}
     du = db.unit('dns.c')
-    soft = du.macro_int('DNS_SOFT')
-    for fname, wt, needs in (('findip', 1, 4), ('findmx', 15, 3), ('findname', 12, 1)):
-        fn = db.fn('dns.c', fname)
+    walkers = []
+    for fn in du.functions.values():
+        if len(fn.params) != 1 or 'int' not in fn.param_types.get(fn.params[0], 'int'):
+            continue
+        calls = deep_calls(prog, fn, 'dn_expand', depth=3)
+        if calls:
+            walkers.append((fn, calls[0][0], calls[0][1]))
+    if len(walkers) < 3:
+        raise AnalysisBroken('dns.c: fewer than three record walkers found (%s)' % [w[0].name for w in walkers])
+    for fn, owner, call in sorted(walkers, key=lambda w: w[0].name):
+        fname = fn.name
+        eng0 = Engine(db, prog, QHooks())
+        E0 = Env(eng0, owner, {}, {}, None)
+        roles = [_lvalue_path(eng0, E0, call.args[i]) for i in range(3)]
+        if None in roles or len(set(roles)) != 3:
+            raise AnalysisBroken('dns.c %s: cannot tell start, end and position of the response from %s' % (fname, call.src()))
+        p_buf, p_end, p_pos = roles
         bad = None
         nrun = 0
-        for rdlen in (0, 2, 3, 4, 16):
-            for rem in (0, 1, 2, 3, 4, 16):
-                P = 20                      # the record starts here
-                L = P + 1 + 10 + rem        # name (1 byte) + fixed part (10 bytes) + what is left of the data
-                H = DnsHooks(L, fname)
-                e = Engine(db, prog, H, max_states=200000)
-                fid = e.frame_id(fn)
-                st = {'%s::%s' % (fid, fn.params[0]): fs(wt), 'S:dns_c:response.buf': fs(('&', 'RB[0]')), 'S:dns_c:responseend': fs(('&', 'RB[%d]' % L)),
-                      'S:dns_c:responsepos': fs(('&', 'RB[%d]' % P)), 'S:dns_c:numanswers': fs(1)}
-                for k in range(L):
-                    st['RB[%d]' % k] = fs(0)
-                st['RB[%d]' % (P + 1)] = fs(wt >> 8)
-                st['RB[%d]' % (P + 2)] = fs(wt & 255)
-                st['RB[%d]' % (P + 9)] = fs(rdlen >> 8)
-                st['RB[%d]' % (P + 10)] = fs(rdlen & 255)
-                e.run(fn, st)
-                rep.count_states(e.states, e.transitions)
-                nrun += 1
-                if H.over and bad is None:
-                    bad = ('a %s record whose length field says %d, with %d byte(s) of the response left behind its fixed header: %s' %
-                           ({1: 'A', 15: 'MX', 12: 'PTR'}[wt], rdlen, rem, ('byte %d of a %d-byte response is read' % (H.over[0], L)) if isinstance(H.over[0], int) else H.over[0]), H.over[1])
-        out['dns:%s-reads-record-data-only-inside-the-response' % fname] = (bad is None, 'dns.c:' + fname, bad[0] if bad else '%d (length field, bytes left) combinations' % nrun, bad[1] if bad else [])
+        for wt, rt in ((1, 1), (1, 2)):                     # the record is of the wanted type / of another type
+            for rdlen in (0, 2, 3, 4, 16):
+                for rem in (0, 1, 2, 3, 4, 16):
+                    P = 20                      # the record starts here
+                    L = P + 1 + 10 + rem        # name (1 byte) + fixed part (10 bytes) + what is left of the data
+                    H = DnsHooks(L, fname)
+                    e = Engine(db, prog, H, max_states=200000)
+                    fid = e.frame_id(fn)
+                    st = {'%s::%s' % (fid, fn.params[0]): fs(wt), p_buf: fs(('&', 'RB[0]')), p_end: fs(('&', 'RB[%d]' % L)), p_pos: fs(('&', 'RB[%d]' % P))}
+                    for k in range(L):
+                        st['RB[%d]' % k] = fs(0)
+                    st['RB[%d]' % (P + 1)] = fs(rt >> 8)
+                    st['RB[%d]' % (P + 2)] = fs(rt & 255)
+                    st['RB[%d]' % (P + 9)] = fs(rdlen >> 8)
+                    st['RB[%d]' % (P + 10)] = fs(rdlen & 255)
+                    e.run(fn, st)
+                    rep.count_states(e.states, e.transitions)
+                    nrun += 1
+                    if H.over and bad is None:
+                        bad = ('a record of the %s type whose length field says %d, with %d byte(s) of the response left behind its fixed header: %s' %
+                               ('wanted' if wt == rt else 'wrong', rdlen, rem, ('byte %d of a %d-byte response is read' % (H.over[0], L)) if isinstance(H.over[0], int) else H.over[0]), H.over[1])
+        out['dns:%s-reads-record-data-only-inside-the-response' % fname] = (bad is None, 'dns.c:' + fname, bad[0] if bad else '%d (type, length field, bytes left) combinations' % nrun, bad[1] if bad else [])
     return out
-
 
 
 class LocalReportHooks(QHooks):
@@ -353,7 +380,8 @@ def report_read_sites(db, rep):
         for n in (0, 1, 2, 3, 4):
             H = LocalReportHooks(n)
             e = Engine(db, pl, H, max_states=100000)
-            e.run(fn, {'report::P:wstat': fs(w), 'report::P:len': fs(n), 'report::P:s': fs(('&', 'RL[0]'))})
+            fid = e.frame_id(fn)
+            e.run(fn, {'%s::%s' % (fid, fn.params[1]): fs(w), '%s::%s' % (fid, fn.params[3]): fs(n), '%s::%s' % (fid, fn.params[2]): fs(('&', 'RL[0]'))})
             rep.count_states(e.states, e.transitions)
             puts += H.puts
             if H.bad and bad is None:
